@@ -22,7 +22,10 @@ QUICK = ["vYYYY.0M.PATCH[-TAG[NUM]]", "MAJOR.MINOR.PATCH[PYTAGNUM]", "vYYYY0M.BU
          "YYYY.0W.PATCH", "YYYY.0U.PATCH", "GGGG.0V.PATCH", "YYYY.00J",
          # tag groups with '.' separators (what is left of the group after TAG/NUM moved to [PYTAGNUM] must vanish)
          "MAJOR.MINOR.PATCH[.TAG]", "MAJOR.MINOR.PATCH[-TAG.NUM]"]
-DASHED = ["vYYYY.INC0[-PATCH]"]
+import re as _re
+# the class of the open finding: a '-' directly in front of a numeric part (computed from the pattern list, not enumerated by hand)
+DASHED = [p for p in grammar.G_DOC if _re.search(r"-(?!TAG|PYTAG)[A-Z0-9]", p)]
+assert "vYYYY.INC0[-PATCH]" in DASHED
 
 
 def make(pattern, ints, extra, label, t, expect="confirm", finding=None):
